@@ -352,7 +352,12 @@ class Implements(NameAndModuleComparisonMixin,
         return f'classImplements({name}{declared_names})'
 
     def __reduce__(self):
-        return implementedBy, (self.inherit, )
+        cls = self.inherit
+        if cls is None:
+            # Declared with one of the *only* forms: ``inherit`` was
+            # cleared, but we still belong to (and pickle as) that class.
+            cls = getattr(self, '_v_only_for', None)
+        return implementedBy, (cls, )
 
 
 def _implements_name(ob):
@@ -532,6 +537,7 @@ def classImplementsOnly(cls, *interfaces):
     # about to get rid of.
     spec.declared = ()
     spec.inherit = None
+    spec._v_only_for = cls
     spec.__bases__ = ()
     _classImplements_ordered(spec, interfaces, ())
 
